@@ -195,7 +195,7 @@ int vf_run_case(Src &s, Report &r) {
 			PageDef p; memset(&p, 0, sizeof p);
 			p.mag = mag; p.page = (s.pick(10) << 4) | s.pick(10);
 			if (k == 1 && p.page == pages.back().page) p.page = (p.page + 1) % 0x9A, p.page = ((p.page & 15) > 9) ? (p.page & 0xF0) + 0x10 : p.page, p.page = p.page > 0x99 ? 0 : p.page;
-			switch (s.pick(4)) { case 0: case 1: p.sub = 0; break; case 2: p.sub = (s.pick(8) << 4) | s.pick(10); break; default: p.sub = ((s.pick(3)) << 12) | (s.pick(4) << 8) | (s.pick(6) << 4) | s.pick(10); break; }
+			switch (s.pick(4)) { case 0: case 1: p.sub = 0; break; case 2: p.sub = (s.pick(8) << 4) | s.pick(10); break; default: { unsigned hh = 1 + s.pick(22); p.sub = ((hh / 10) << 12) | ((hh % 10) << 8) | (s.pick(6) << 4) | s.pick(10); break; } }	// clock style subcode HHMM
 			p.national = s.pick(7);
 			p.c5 = s.chance(1, 10); p.c6 = !p.c5 && s.chance(1, 10);
 			memcpy(p.header, hdr_tmpl, 32);
@@ -236,6 +236,7 @@ int vf_run_case(Src &s, Report &r) {
 			if (cyc > 0 && !f.c4_erase) has_noerase = true;
 			plist[pi].push_back(mk(tx::header(p.mag, p.page, p.sub, f, p.header), K_HDR, (int) p.mag, (int) pi, (int) cyc, 0));
 			sent_keys.insert((((p.mag << 8) | p.page) << 16) | (p.sub & 0x3F7F));
+			if (p.sub > 0x79) sent_keys.insert(((p.mag << 8) | p.page) << 16);	// the cache documents that it keeps one version of clock / rolling pages, possibly as subpage 0
 			std::vector<int> rows;
 			for (int y = 1; y <= 24; ++y) {
 				if (!p.have[y]) continue;
@@ -252,7 +253,8 @@ int vf_run_case(Src &s, Report &r) {
 					while (k < 13) {
 						if (k < 12 && !rows.empty() && s.chance(3, 4)) {
 							int y = rows[s.pick((uint32_t) rows.size())];
-							t[k++] = (40u + (y == 24 ? 0 : (unsigned) y)) | (0x04u << 6);	// set active position
+							if (s.chance(1, 3)) t[k++] = (40u + (y == 24 ? 0 : (unsigned) y)) | (0x01u << 6) | (s.pick(32) << 11);	// full row colour (also moves the active position)
+							else t[k++] = (40u + (y == 24 ? 0 : (unsigned) y)) | (0x04u << 6);	// set active position
 							unsigned nc = 1 + s.pick(3);
 							for (unsigned c = 0; c < nc && k < 13; ++c) {
 								static const unsigned modes[] = {0x0F, 0x10, 0x11, 0x14, 0x18, 0x1F, 0x09, 0x01, 0x02, 0x0B, 0x03, 0x07, 0x0C};
@@ -305,9 +307,10 @@ int vf_run_case(Src &s, Report &r) {
 		}
 	}
 	int n = (int) txv.size();
-	// page spans: a header's page is terminated by the next header of its magazine (any magazine in serial mode)
+	// page spans: a page counts as in progress until the next header of its own magazine (in serial mode a decoder may complete it at the
+	// next header of any magazine or keep it pending until then; both are accepted)
 	for (int i = 0; i < n; ++i) if (txv[i].kind == K_HDR || txv[i].kind == K_FILL) {
-		int e = n; for (int j = i + 1; j < n; ++j) if ((txv[j].kind == K_HDR || txv[j].kind == K_FILL) && (serial || txv[j].mag == txv[i].mag)) { e = j; break; }
+		int e = n; for (int j = i + 1; j < n; ++j) if ((txv[j].kind == K_HDR || txv[j].kind == K_FILL) && txv[j].mag == txv[i].mag) { e = j; break; }
 		txv[i].span_end = e;
 	}
 	if (r.verbose) {
@@ -380,8 +383,8 @@ int vf_run_case(Src &s, Report &r) {
 			if (have[id]) return cands[id];
 			unsigned mask = id % nsub; bool as_filler = id >= nsub;
 			std::fill(drop.begin(), drop.end(), 0);
-			for (int j = i; j < txv[i].span_end; ++j) if (!txv[j].exempt && (serial || txv[j].mag == txv[i].mag)) drop[j] = 1;
-			for (size_t o = 0; o < open.size(); ++o) if (mask & (1u << o)) { int h = open[o]; for (int j = h; j < txv[h].span_end && j < i; ++j) if (!txv[j].exempt && (serial || txv[j].mag == txv[h].mag)) drop[j] = 1; }
+			for (int j = i; j < txv[i].span_end; ++j) if (!txv[j].exempt && txv[j].mag == txv[i].mag) drop[j] = 1;
+			for (size_t o = 0; o < open.size(); ++o) if (mask & (1u << o)) { int h = open[o]; for (int j = h; j < txv[h].span_end; ++j) if (!txv[j].exempt && txv[j].mag == txv[h].mag) drop[j] = 1; }
 			if (as_filler) drop[i] = 0;
 			run_tx(txv, &drop, as_filler ? i : -1, filler, cands[id]); have[id] = true; return cands[id];
 		};
@@ -408,23 +411,40 @@ int vf_run_case(Src &s, Report &r) {
 	// ---------- class 4: parity errors in text rows: the row keeps its earlier content or stays blank ----------
 	g_full_page_event = false;
 	Snap ref_lite; run_tx(txv, nullptr, -1, nullptr, ref_lite);
+	uint64_t runs4 = 0;
 	for (int i = 0; i < n; ++i) {
 		if (txv[i].kind != K_ROW || txv[i].row > 24) continue;
-		// cells addressed by X/26 data of this page transmission are excepted by the statement: skip rows that X/26 addresses
-		bool x26_row = false;
-		for (int j = 0; j < n; ++j) if (txv[j].kind == K_X26 && txv[j].pi == txv[i].pi) x26_row = true;
-		unsigned nflt = 1 + s.pick(3);
+		// cells addressed by character triplets of the page's X/26 packets (any cycle: enhancement data stays cached) are excepted by the
+		// statement; walk the triplets as EN 300 706 12.3 describes: row address triplets 0x01, 0x04, 0x07 move the active row
+		std::set<int> ov, xcols;
+		for (int j = 0; j < n; ++j) if (txv[j].kind == K_X26 && txv[j].pi == txv[i].pi) {
+			// designation 0 starts at row 0; later designations continue, which the conservative union over all rows of a column below covers
+			int row = -1;
+			for (int q = 0; q < 13; ++q) {
+				unsigned t18 = 0; { const uint8_t *tp = txv[j].b + 3 + 3 * q; unsigned v = tp[0] | tp[1] << 8 | tp[2] << 16; int kk = 0; for (int pos = 1; pos <= 23; ++pos) { if ((pos & (pos - 1)) == 0) continue; t18 |= ((v >> (pos - 1)) & 1) << kk++; } }
+				unsigned addr = t18 & 0x3F, mode = (t18 >> 6) & 0x1F;
+				if (addr >= 40) { if (mode == 0x01 || mode == 0x04) { row = (int) addr - 40; if (!row) row = 24; } else if (mode == 0x07) row = 0; }
+				else if (mode == 0x01 || mode == 0x02 || mode == 0x0B || mode == 0x08 || mode == 0x09 || mode == 0x0D || mode == 0x0F || mode >= 0x10) { xcols.insert((int) addr); if (row >= 0) ov.insert(row * 64 + (int) addr); else for (int rr = 0; rr < 25; ++rr) ov.insert(rr * 64 + (int) addr); }
+			}
+		}
+		std::vector<int> tcols; for (int c : xcols) if (!ov.count(txv[i].row * 64 + c)) tcols.push_back(c);	// addressed by a triplet, but in another row
+		unsigned nflt = 2 + s.pick(4);
 		for (unsigned f = 0; f < nflt; ++f) {
-			if (runs > budget * 12 / 10) break;
+			if (runs4 > budget / 3) break;
 			memcpy(fb, txv[i].b, 42);
 			unsigned cnt = s.chance(1, 4) ? 1 + s.pick(40) : 1;
-			std::vector<int> pos;
-			for (unsigned c = 0; c < cnt; ++c) { int k = 2 + (int) s.pick(40); fb[k] ^= 1 << s.pick(8); pos.push_back(k); }
+			for (unsigned c = 0; c < cnt; ++c) {
+				int col = (int) s.pick(40);
+				if (!tcols.empty() && s.chance(1, 2)) col = tcols[s.pick((uint32_t) tcols.size())];
+				else if (!xcols.empty() && s.chance(1, 4)) { auto it = xcols.begin(); std::advance(it, s.pick((uint32_t) xcols.size())); col = *it; }
+				if (ov.count(txv[i].row * 64 + col)) { r.cls("parity-fault-position-overridden-by-X/26-skipped"); continue; }
+				fb[2 + col] ^= 1 << s.pick(8);
+			}
 			bool any_bad = false; for (int k = 2; k < 42; ++k) if (!enc::par_ok(fb[k])) any_bad = true;
 			if (!any_bad) continue;
-			if (x26_row) { r.cls("parity-fault-on-page-with-X/26-not-judged"); continue; }
-			run_tx(txv, nullptr, i, fb, got); ++runs;
+			run_tx(txv, nullptr, i, fb, got); ++runs; ++runs4;
 			r.cls("faults:parity-text-row");
+			if (!tcols.empty()) r.cls("faults:parity-text-row-on-page-with-X/26");
 			std::fill(drop.begin(), drop.end(), 0); drop[i] = 1;
 			run_tx(txv, &drop, -1, nullptr, cand);
 			if (same_pages(got, cand)) continue;
@@ -448,7 +468,7 @@ int vf_run_case(Src &s, Report &r) {
 	}
 	// header text parity errors: the page must still be cached under its number, other pages untouched
 	for (int i = 0; i < n; ++i) {
-		if (txv[i].kind != K_HDR || runs > budget * 13 / 10) continue;
+		if (txv[i].kind != K_HDR) continue;
 		memcpy(fb, txv[i].b, 42);
 		int k = 10 + (int) s.pick(32); fb[k] ^= 1 << s.pick(8);
 		run_tx(txv, nullptr, i, fb, got); ++runs;
